@@ -88,6 +88,7 @@ def check(run):
             viol, samples, summary = summary_of(outp)
             if summary is None or summary["histories"] != n:
                 raise core.Inconclusive("history driver did not finish")
+            viol = run.confirm(binary, "TestC14Hist", {"VERIF_CONF": json.dumps({"maxBytes": mb, "exp": 3, "storeHeaders": sh})}, viol, "hist_%d_%d" % (mb, sh))
             for v in viol:
                 run.violation(v)
             for s in samples[:1]:
